@@ -208,6 +208,35 @@ template <int b> static std::string block_op(Tok &t) {
     be::spmv(alpha, C, xb, beta, yb);
     return d + " " + it + " " + cp + " " + vq::show_crs(*U) + " " + show(y);
 }
+// the block adapter on top of OTHER adapters (it keeps b row iterators of the underlying matrix alive at the same
+// time): block_matrix(make_matrix(row builder)), block_matrix(zero_copy(...)), block_matrix(tuple); same output
+// format and the same model op as `block` (square matrices)
+template <int b, class Under> static std::string block_over(Under &U0, std::vector<Q> x, Q alpha, Q beta, std::vector<Q> y) {
+    typedef typename Blk<b>::type BT; typedef typename Blk<b>::rhs RT;
+    auto A = amgcl::adapter::block_matrix<BT>(U0);
+    std::string d = dims(A), it = dump_blocks<b>(A);
+    be::crs<BT> C(A);
+    std::string cp = dump_blocks<b>(C);
+    auto U = amgcl::adapter::unblock_matrix(C);
+    auto xb = be::reinterpret_as_rhs<RT>(x); auto yb = be::reinterpret_as_rhs<RT>(y);
+    be::spmv(alpha, C, xb, beta, yb);
+    return d + " " + it + " " + cp + " " + vq::show_crs(*U) + " " + show(y);
+}
+template <int b> static std::string block_comp(const std::string &under, Tok &t) {
+    auto a = std::make_shared< Arr<ptrdiff_t> >(t); std::vector<Q> x = t.vec(); Q alpha = t.q(), beta = t.q(); std::vector<Q> y = t.vec();
+    if (a->m != a->n) throw std::invalid_argument("square");
+    if (under == "builder") { RowsFromCase rb; rb.a = a; auto M = amgcl::adapter::make_matrix(rb); return block_over<b>(M, x, alpha, beta, y); }
+    if (under == "zero_copy") { auto M = amgcl::adapter::zero_copy((size_t)a->n, a->ptr.data(), a->col.data(), a->val.data()); return block_over<b>(*M, x, alpha, beta, y); }
+    if (under == "tuple") { size_t n = a->n; auto M = std::tie(n, a->ptr, a->col, a->val); return block_over<b>(M, x, alpha, beta, y); }
+    throw std::invalid_argument("under");
+}
+AD_OP(block_over) {
+    std::string under = t.s(); long b = t.i();
+    if (b == 2) return block_comp<2>(under, t);
+    if (b == 3) return block_comp<3>(under, t);
+    if (b == 4) return block_comp<4>(under, t);
+    throw std::invalid_argument("block size");
+}
 AD_OP(block) {
     long b = t.i();
     if (b == 2) return block_op<2>(t);
